@@ -30,9 +30,10 @@ static std::vector<SolDesc> alphabet(bool thorough)
     {
         a.push_back({true, false, true, d, 1.0});
         a.push_back({true, false, false, d, 2.0});
+        a.push_back({true, true, true, d, 2.0});  // approximate AND flagged as meeting the objective (a partial path reported the usual way)
         if (thorough)
         {
-            a.push_back({true, true, true, d, 2.0});
+            a.push_back({true, true, false, d, 1.0});
             a.push_back({true, false, false, d, 1.0});
         }
     }
